@@ -14,6 +14,10 @@ fn main() {
         println!("{}", vh::report::count_distinct_hashes(&argv[1..]));
         return;
     }
+    if argv[0] == "dump-opcode-table" {
+        print!("{}", vh::codec::table_tsv(&vh::codec::read_spec(essential_asm_spec::ASM_YAML).expect("asm.yml")));
+        return;
+    }
     if argv[0] == "d11" {
         // Canonical witness of known finding D11 (run by the driver under an address-space cap).
         use essential_vm::{asm::short::*, Access, GasLimit, Op, Vm};
@@ -44,6 +48,8 @@ fn main() {
                 let c: vh::vmcase::VmCase = serde_json::from_value(case).expect("vm case");
                 vh::vmengine::replay(&c, &mut rep);
             }
+            "codec" => vh::codec::replay(case.get("bytes").and_then(|b| b.as_str()).unwrap_or(""), &mut rep),
+            "vm-bytes" => vh::codec::replay(case.get("bytes").and_then(|b| b.as_str()).unwrap_or(""), &mut rep),
             other => {
                 eprintln!("no replay for engine {other}");
                 std::process::exit(2);
@@ -92,6 +98,8 @@ fn main() {
     let mut rep = Report::new(&a.engine, a.seed, a.shard);
     match a.engine.as_str() {
         "vm" => vh::vmengine::run(&a, &mut rep),
+        "codec" => vh::codec::run(&a, &mut rep),
+        "formats" => vh::formats::run(&a, &mut rep),
         _ => usage(),
     }
     rep.finish(t0);
